@@ -203,11 +203,18 @@ class HSMCertificateV2ElementSGXAttestationKey(HSMCertificateV2Element):
         return ecdsa.VerifyingKey.from_string(self._key, ecdsa.NIST256p)
 
     def to_dict(self):
+        # Save exactly the message that was loaded (and signed): parsing it
+        # as a report body would cut or reject anything but the exact length
+        try:
+            key = self.key.to_string("uncompressed").hex()
+        except Exception:
+            # A key that can't be parsed is kept as loaded
+            key = self._key.hex()
         return {
             "name": self.name,
             "type": "sgx_attestation_key",
-            "message": self.message.get_raw_data().hex(),
-            "key": self.key.to_string("uncompressed").hex(),
+            "message": self._message.hex(),
+            "key": key,
             "auth_data": self.auth_data,
             "signature": self.signature,
             "signed_by": self.signed_by,
